@@ -40,6 +40,10 @@ type c10Level struct {
 	// caller's outgoing metadata uses too (a gateway relaying the end user's header while authenticating itself):
 	// the handler still sees every value the caller attached, next to the credentials' one
 	Creds string `json:",omitempty"`
+	// MixedCase: the caller's metadata map is one it did not build with the metadata package (e.g. metadata.MD of an
+	// http.Header): its first key is spelled with capitals, and one more value for it is appended with
+	// AppendToOutgoingContext in lower case: the handler sees both, in that order, under the lower-case key
+	MixedCase bool `json:",omitempty"`
 }
 
 const c10CredValue = "cred-value-of-the-call"
@@ -84,6 +88,8 @@ func init() {
 	}
 }
 
+var c10EmptyKey = new(struct{})
+
 func (v c10Val) key() interface{} {
 	switch v.KeyKind {
 	case "string":
@@ -94,6 +100,10 @@ func (v c10Val) key() interface{} {
 		return c10StructKey{v.ID, 1}
 	case "pointer":
 		return c10Ptrs[v.ID%len(c10Ptrs)]
+	case "emptystructptr":
+		// a pointer to a zero-size value, as keys written new(struct{}) or &struct{}{} are: every one of them may
+		// have the same address as any other zero-size variable of the program
+		return c10EmptyKey
 	default:
 		return c10StrKey(fmt.Sprintf("t%d", v.ID))
 	}
@@ -547,14 +557,31 @@ func propC10(c c10Case) *Outcome {
 		var attached metadata.MD
 		if !l.NoMD && l.OutMD != nil {
 			attached = l.OutMD.MD()
-			ctx = metadata.NewOutgoingContext(ctx, attached)
-			sentMD[level] = attached.Copy()
+			if l.MixedCase && len(l.OutMD) > 0 && !strings.HasSuffix(l.OutMD[0].K, "-bin") {
+				k := strings.ToLower(l.OutMD[0].K)
+				raw := metadata.MD{}
+				for kk, vv := range attached {
+					if kk == k {
+						kk = strings.ToUpper(k[:1]) + k[1:]
+					}
+					raw[kk] = vv
+				}
+				ctx = metadata.AppendToOutgoingContext(metadata.NewOutgoingContext(ctx, raw), k, "appended-in-lower-case")
+				attached = raw
+				want := l.OutMD.MD()
+				want[k] = append(want[k], "appended-in-lower-case")
+				sentMD[level] = want
+			} else {
+				ctx = metadata.NewOutgoingContext(ctx, attached)
+				sentMD[level] = attached.Copy()
+			}
 		} else {
 			sentMD[level] = nil
 		}
 		// NoMD: nothing is attached at all. (A handler's context never carries outgoing
 		// metadata of an enclosing caller: the value-blocking wrapper hides it.)
 		callerCtx[level] = ctx
+		callerWant := sentMD[level].Copy() // what the caller's own context says (credentials not included)
 		var copts []grpc.CallOption
 		credKey[level] = ""
 		if l.Creds != "" {
@@ -604,7 +631,7 @@ func propC10(c c10Case) *Outcome {
 		if c.Mutate && !l.NoMD && len(l.OutMD) > 0 {
 			// the caller's own view must be intact after the call
 			again, _ := metadata.FromOutgoingContext(callerCtx[level])
-			if ok, why := mdContains(again, l.OutMD.MD()); (!ok && !c.MutCaller) || len(again["zz-injected"]) != 0 {
+			if ok, why := mdContains(again, callerWant); (!ok && !c.MutCaller) || len(again["zz-injected"]) != 0 {
 				p.fault("level %d caller: outgoing metadata changed by the call: %s", level, why)
 			}
 		}
@@ -686,7 +713,16 @@ func genC10(t *rapid.T) c10Case {
 		nv := rapid.IntRange(0, 6).Draw(t, "nvals")
 		for j := 0; j < nv; j++ {
 			id++
-			l.Vals = append(l.Vals, c10Val{KeyKind: rapid.SampledFrom([]string{"string", "int", "struct", "pointer", "typed"}).Draw(t, "keykind"), ID: id, Val: fmt.Sprintf("v%d", id)})
+			kk := rapid.SampledFrom([]string{"string", "int", "struct", "pointer", "typed", "emptystructptr"}).Draw(t, "keykind")
+			if kk == "emptystructptr" {
+				// (all pointers to zero-size values are one key: one per level)
+				for _, v := range l.Vals {
+					if v.KeyKind == kk {
+						kk = "typed"
+					}
+				}
+			}
+			l.Vals = append(l.Vals, c10Val{KeyKind: kk, ID: id, Val: fmt.Sprintf("v%d", id)})
 		}
 		switch rapid.IntRange(0, 3).Draw(t, "md") {
 		case 0:
@@ -703,6 +739,7 @@ func genC10(t *rapid.T) c10Case {
 				l.NoMD = true
 			}
 		}
+		l.MixedCase = rapid.IntRange(0, 4).Draw(t, "mixedcase") == 0
 		if rapid.IntRange(0, 3).Draw(t, "creds") == 0 {
 			l.Creds = rapid.SampledFrom([]string{"own", "collide", "collide"}).Draw(t, "credskey")
 		}
